@@ -158,20 +158,45 @@ def r2_element_wise(ctx):
                    "; ".join(probs) if probs else "map under element_wise, direct call otherwise")
 
 
+def _is_failure_case_helper(cls, f) -> bool:
+    """a private method whose result is, at every call site in the class, bound to the failure cases of the report
+    (`failure_cases = self._h(...)` / `failure_cases=self._h(...)`): what it computes is report formatting"""
+    if not f.name.startswith("_") or f.name.startswith("__"):
+        return False
+    sites = []
+    for lst in cls.methods.values():
+        for g in lst:
+            for c in calls_in(g.node, nested=True):
+                if isinstance(c.func, ast.Attribute) and c.func.attr == f.name and isinstance(c.func.value, ast.Name) and c.func.value.id in ("self", "cls"):
+                    sites.append((g, c))
+    if not sites:
+        return False
+    from ..index import parent
+    for g, c in sites:
+        p = parent(c)
+        ok = (isinstance(p, ast.Assign) and all("failure_case" in txt(t) for t in p.targets)) or \
+             (isinstance(p, ast.keyword) and p.arg == "failure_cases") or (isinstance(p, ast.Return) and _is_failure_case_helper(cls, g))
+        if not ok:
+            return False
+    return True
+
+
 def r3_ignore_na(ctx):
     ix = ctx.ix
     pcb, lcb = ix.cls(PCB), ix.cls(LCB)
     keep = lambda t, n: "ignore_na" in t
     n_drop = 0
-    for f in [x for lst in pcb.methods.values() for x in lst] + [x for lst in lcb.methods.values() for x in lst]:
+    for cls_, f in [(pcb, x) for lst in pcb.methods.values() for x in lst] + [(lcb, x) for lst in lcb.methods.values() for x in lst]:
         cfg = None
+        post_check = "check_output" in f.params   # a postprocess stage: it receives what the check function returned
+        fc_helper = post_check and _is_failure_case_helper(cls_, f)
         for c in calls_in(f.node):
             last = callee_last(c)
             is_drop = last in ("dropna", "drop_nulls", "drop_nans")
             st = enclosing_stmt(c)
-            if is_drop and f.name == "postprocess_table" and isinstance(st, ast.Assign) and "failure" in txt(st.targets[0]) \
-                    or (is_drop and any(isinstance(p, ast.For) for p in _parents(c)) and f.name == "postprocess_table"):
-                continue  # null removal inside failure-case formatting, not before the check
+            if is_drop and post_check and (fc_helper or (isinstance(st, ast.Assign) and "failure" in txt(st.targets[0]))
+                                           or any(isinstance(p, ast.For) for p in _parents(c))):
+                continue  # null removal inside failure-case formatting (after the check ran), not before the check
             if is_drop:
                 cfg = cfg or cfg_of(f.node)
                 pc = path_condition(cfg, cfg.node_of(st).id, keep=keep)
@@ -217,6 +242,7 @@ def r4_n_failure_cases(ctx):
                 continue
             count += 1
             probs = []
+            fc_helper = "failure_case" in f.name or _is_failure_case_helper(cls, f)
             for u in uses:
                 st = enclosing_stmt(u)
                 if isinstance(st, ast.If) and in_subtree(u, st.test):
@@ -226,7 +252,7 @@ def r4_n_failure_cases(ctx):
                                 tg = w.targets if isinstance(w, ast.Assign) else [w.target]
                                 if not all("failure_case" in txt(t) for t in tg):
                                     probs.append(f"branch on n_failure_cases assigns {txt(tg[0])}")
-                            elif isinstance(w, ast.Return) and w.value is not None and "failure_case" in txt(w.value) and "failure_case" in f.name:
+                            elif isinstance(w, ast.Return) and w.value is not None and fc_helper:
                                 pass   # a failure-case helper returning (truncated or full) failure cases
                             elif isinstance(w, (ast.Return, ast.Raise)):
                                 probs.append("branch on n_failure_cases returns/raises")
@@ -235,6 +261,8 @@ def r4_n_failure_cases(ctx):
                         probs.append(f"n_failure_cases flows into {txt(st.targets[0])}")
                 elif isinstance(st, ast.Expr):
                     pass
+                elif isinstance(st, ast.Return) and fc_helper:
+                    pass   # the helper's result *is* the failure cases
                 else:
                     probs.append(f"n_failure_cases used in `{txt(st)[:50]}`")
             ctx.ob("R4", f, "n_failure_cases reaches only failure-case truncation", not probs,
